@@ -369,7 +369,9 @@ MAY_PANIC = {"drop_in_place"}
 #   (file, function, new name[, ("while", k)])  — with a locator only the k-th `while` statement is taken
 PROCS = [("src/lib.rs", "dealloc_chunk_list", "dealloc_chunk_list"),
          ("src/collections/vec.rs", "partition_dedup_by", "dedup_partition_loop", ("while", 1)),
-         ("src/collections/vec.rs", "truncate", "vec_truncate_loop", ("for", 1))]
+         ("src/collections/vec.rs", "truncate", "vec_truncate_loop", ("for", 1)),
+         ("src/lib.rs", "alloc_slice_fill_with", "slice_fill_with_loop", ("for", 1)),
+         ("src/lib.rs", "try_alloc_slice_fill_with", "try_slice_fill_with_loop", ("for", 1))]
 CONST_FILE = "src/lib.rs"
 
 
@@ -655,6 +657,21 @@ class Parser:
                 body = self.proc_stmts()
                 self.eat("}")
                 out.append("SRepeat (EBin BSub %s %s) [%s]" % (hi, lo, "; ".join(body)))
+            elif tok == "for" and self.kind(1) == "id" and self.peek(1) != "_" and self.peek(2) == "in":
+                # for i in lo..hi { body }: the counter is an ordinary binding that starts at lo and goes
+                # up by one after each round (what Range<usize>::next does); hi - lo rounds
+                self.eat()
+                ivar = self.eat()
+                self.eat()
+                lo = self.expr(no_struct=True, level=len(BINOPS) - 2)
+                self.eat("..")
+                hi = self.expr(no_struct=True, level=len(BINOPS) - 2)
+                self.eat("{")
+                body = self.proc_stmts()
+                self.eat("}")
+                body.append("SSet %s (EBin BAdd (EVar %s) (ELit 1))" % (q(ivar), q(ivar)))
+                out.append("SLet %s %s" % (q(ivar), lo))
+                out.append("SRepeat (EBin BSub %s %s) [%s]" % (hi, lo, "; ".join(body)))
             elif tok == "while":
                 self.eat()
                 c = self.expr(no_struct=True)
@@ -717,7 +734,21 @@ class Parser:
                 self.eat()
                 self.eat()
                 f = self.eat()
-                a = self.args()
+                # an argument that is a call of a caller-supplied closure (`ptr::write(p, f(i))`): the
+                # closure runs first (recorded; it may panic), the call then receives its result, which
+                # is not among the recorded arguments
+                self.eat("(")
+                a = []
+                while self.peek() != ")":
+                    if self.kind() == "id" and self.peek() in self.closures and self.peek(1) == "(":
+                        c = self.eat()
+                        ca = self.args()
+                        out.append("SDoMay %s [%s]" % (q(c), "; ".join(ca)))
+                    else:
+                        a.append(self.expr())
+                    if self.peek() == ",":
+                        self.eat()
+                self.eat(")")
                 self.eat(";")
                 out.append("%s %s [%s]" % ("SDoMay" if f in MAY_PANIC else "SDo", q(f), "; ".join(a)))
             elif self.kind() == "id" and self.peek(1) == "." and self.kind(2) == "id" and self.peek(3) == "(" and self.peek() != "self":
